@@ -127,7 +127,24 @@ type Evidence struct {
 	Violations  int                    `json:"violations"`
 }
 
+type checkOpts struct {
+	overlay  map[string][]byte
+	selftest string // non-empty: mutant name; no evidence is written, no replay
+	result   *checkResult
+}
+
+type checkResult struct {
+	violations []string
+	known      []string
+	nOb, nDis  int
+	failed     []string // names of failed obligations
+}
+
 func cmdCheck(args []string) int {
+	return runCheck(args, &checkOpts{})
+}
+
+func runCheck(args []string, opts *checkOpts) int {
 	t0 := time.Now()
 	if len(args) < 1 {
 		fmt.Println("usage: govc check <id> [--tier quick|thorough]")
@@ -155,9 +172,13 @@ func cmdCheck(args []string) int {
 		timeout = 120
 	}
 	outDir := filepath.Join(verifRoot(), "out", id)
+	replayDir := filepath.Join(verifRoot(), "replays", id)
+	if opts.selftest != "" {
+		outDir = filepath.Join(verifRoot(), "out", "selftest", id+"-"+opts.selftest)
+		replayDir = filepath.Join(outDir, "replays")
+	}
 	os.RemoveAll(outDir)
 	os.MkdirAll(outDir, 0755)
-	replayDir := filepath.Join(verifRoot(), "replays", id)
 	os.MkdirAll(replayDir, 0755)
 
 	var violations []string // lines
@@ -169,12 +190,13 @@ func cmdCheck(args []string) int {
 		violations = append(violations, fmt.Sprintf("VIOLATION property=%s replay=%s obligation=binding (%s) no-failing-input-found", id, rp, what))
 	}
 
-	w, err := loadWorld(prop.Packages, nil)
+	replayOverlay = opts.overlay
+	w, err := loadWorld(prop.Packages, opts.overlay)
 	if err != nil {
 		// the tree does not type-check: nothing can be verified
 		fmt.Println("load error:", err)
 		bindFail("packages do not load: " + trunc(err.Error(), 300))
-		return finish(id, tier, seed, prop, nil, nil, violations, nil, t0, nil)
+		return finish(id, tier, seed, prop, nil, nil, violations, nil, t0, nil, opts)
 	}
 	for _, e := range w.DB.Errors {
 		bindFail("contract file error: " + e)
@@ -278,14 +300,20 @@ func cmdCheck(args []string) int {
 			continue
 		}
 		nviol++
-		rp, confirmed := replayOblig(w, id, o, replayDir, timeout)
+		if opts.result != nil {
+			opts.result.failed = append(opts.result.failed, o.Name+" ["+o.Status+"]")
+		}
+		rp, confirmed := "", false
+		if opts.selftest == "" || os.Getenv("GOVC_SELFTEST_REPLAY") != "" {
+			rp, confirmed = replayOblig(w, id, o, replayDir, timeout)
+		}
 		suffix := ""
 		if !confirmed {
 			suffix = " no-failing-input-found"
 		}
 		violations = append(violations, fmt.Sprintf("VIOLATION property=%s replay=%s obligation=%s status=%s%s", id, rp, o.Name, o.Status, suffix))
 	}
-	return finish(id, tier, seed, prop, all, gens, violations, knownLines, t0, w)
+	return finish(id, tier, seed, prop, all, gens, violations, knownLines, t0, w, opts)
 }
 
 func writeJSON(path string, v interface{}) {
@@ -320,7 +348,7 @@ func (g *Gen) matchesKnown(o *Oblig, kf KnownFinding, timeout int) (ok bool) {
 	return o2.Status == "unsat"
 }
 
-func finish(id, tier string, seed int, prop *Prop, all []*Oblig, gens []*Gen, violations, knownLines []string, t0 time.Time, w *World) int {
+func finish(id, tier string, seed int, prop *Prop, all []*Oblig, gens []*Gen, violations, knownLines []string, t0 time.Time, w *World, opts *checkOpts) int {
 	nOb, nDis, nBounded, nBoundedOK, nKnown := 0, 0, 0, 0, 0
 	covers, coversReached := 0, 0
 	var solverMs int64
@@ -443,6 +471,18 @@ func finish(id, tier string, seed int, prop *Prop, all []*Oblig, gens []*Gen, vi
 	}
 	if level != "proof" {
 		cov["explanation"] = prop.Explanation
+	}
+	if opts.result != nil {
+		opts.result.violations, opts.result.known, opts.result.nOb, opts.result.nDis = violations, knownLines, nOb, nDis
+	}
+	if opts.selftest != "" {
+		if len(violations) > 0 {
+			return 1
+		}
+		return 0
+	}
+	if tier == "thorough" {
+		cov["selftest"] = runSelftestFor(id)
 	}
 	ev := &Evidence{PropertyID: id, Tier: tier, Seed: seed, Level: level, Coverage: cov, Assumptions: assumptions, WallS: time.Since(t0).Seconds(), Violations: len(violations)}
 	os.MkdirAll(filepath.Join(verifRoot(), "evidence"), 0755)
